@@ -260,7 +260,7 @@ fn subscription(flavour: Flavour, n_ext: usize, out: &mut CaseOut) {
         let own_log: Vec<super::world::REvent> = run.log.iter().filter(|e| e.ev == *ev).cloned().collect();
         let mut root_types = BTreeMap::new();
         root_types.insert(key.clone(), Ty::parse(field_def("Subscription", field).unwrap().ty));
-        match expected_ext(b, &own_log, &root_types, &errs, n_ext > 0) {
+        match expected_ext(b, &own_log, &root_types, &errs, true) {
             Err(e) => {
                 sim::log(format!("unattributable: {e}"));
                 out.discarded = true;
